@@ -304,6 +304,9 @@ PPL::Grid::remove_space_dimensions(const Variables_Set& vars) {
   }
 
   gen_sys.remove_space_dimensions(vars);
+  // Lines and parameters lying in the removed dimensions have become
+  // the origin, which is not a valid line or parameter.
+  gen_sys.remove_invalid_lines_and_parameters();
 
   clear_congruences_up_to_date();
   clear_generators_minimized();
